@@ -106,6 +106,61 @@ func VerifC07_PacketInLongHopByHop() {
 	c07run(c07frame(Type_PacketIn, prefix, 0))
 }
 
+// the largest frame the 16-bit length field can describe (65535 bytes), one per message type and
+// per multipart request / reply type, filled with 0x00 or 0xa5 (concrete content: what varies is
+// which decoder's record loop has to walk 64 KiB; its offsets and sums must not wrap)
+func VerifC07_MaximalFrame() {
+	const n = 65535
+	data := make([]byte, n)
+	fill := uint8(0xa5 * vr.Choice("fill", 2))
+	for i := range data {
+		data[i] = fill
+	}
+	k := vr.Choice("kind", 29+28)
+	typ, mp := 0, -1
+	switch {
+	case k < 18:
+		typ = k
+	case k < 29:
+		typ = k + 2 // 20..30
+	case k < 29+14:
+		typ, mp = 18, k-29
+	default:
+		typ, mp = 19, k-29-14
+	}
+	data[0], data[1], data[2], data[3] = 4, uint8(typ), 0xff, 0xff
+	copy(data[4:8], vr.Bytes("xid", 4))
+	if mp >= 0 {
+		data[8], data[9], data[10], data[11] = 0, uint8(mp), 0, 0
+	}
+	c07run(data)
+}
+
+// bundle-add messages nested in one another (each wraps the next as its message; innermost: an
+// echo request): decoding must stay proportional — a size function that walks the nest again at
+// every level makes it exponential. Depth 1, 2, 8 or 30 (728 bytes); work budget 4000
+// interpreted instructions per input byte (the unchanged tree needs under 200).
+func VerifC07_NestedBundleAdd() {
+	d := []int{1, 2, 8, 30}[vr.Choice("depth", 4)]
+	n := 24*d + 8
+	data := make([]byte, n)
+	for i := 0; i < d; i++ {
+		h := data[24*i:]
+		l := n - 24*i
+		h[0], h[1], h[2], h[3] = 4, Type_Experimenter, uint8(l>>8), uint8(l)
+		copy(h[4:8], vr.Bytes("xid", 4))
+		h[8], h[9], h[10], h[11] = uint8(ONF_EXPERIMENTER_ID>>24), uint8(ONF_EXPERIMENTER_ID>>16&0xff), uint8(ONF_EXPERIMENTER_ID>>8&0xff), uint8(ONF_EXPERIMENTER_ID&0xff)
+		h[12], h[13], h[14], h[15] = uint8(Type_BundleAdd>>24), uint8(Type_BundleAdd>>16&0xff), uint8(Type_BundleAdd>>8&0xff), uint8(Type_BundleAdd&0xff)
+		copy(h[16:20], vr.Bytes("bundle", 4))
+		copy(h[22:24], vr.Bytes("bflags", 2))
+	}
+	e := data[24*d:]
+	e[0], e[1], e[2], e[3] = 4, Type_EchoRequest, 0, 8
+	vr.WorkLimit(4000 * n)
+	c07run(data)
+	vr.WorkLimit(0)
+}
+
 // instruction / action region inside flow-mod (40 fixed bytes, empty match, instructions)
 func VerifC07_InstructionRegion() {
 	r := vr.IntRange("region", 0, c07pick(16, 24))
